@@ -194,8 +194,8 @@ def system_trace(runs):
             continue
         out += r["model_events"]
         res = r["result"]
-        out.append(dict(ev="files", motion=[f["ids"] for f in res["files"] if f["kind"] == "final"],
-                        constant=[f["ids"] for f in res["constant"] if f["kind"] == "final"]))
+        out.append(dict(ev="files", motion=[f.get("ids", []) for f in res["files"] if f["kind"] == "final"],
+                        constant=[f.get("ids", []) for f in res["constant"] if f["kind"] == "final"], ntest=r.get("ntest", 0)))
         index.append((len(out), ri))
     return out, index
 
@@ -292,3 +292,47 @@ def c05_wiring(ctx, binp):
         out.append(dict(fps=fps, settings=settings, bucket_frames=bucket_frames, frames_sent=n, frames_stored=stored,
                         throttle_events=events, files=[f["ids"] for f in last["files"] if f["kind"] == "final"]))
     return out
+
+
+def c17_runs(ctx, binp):
+    """C17 end to end through runMain: a test recording requested in the middle of a motion recording (and one while
+    idle) must give one extra file of 21 consecutive frames each and leave the motion and continuous files exactly as
+    predicted (the three recorders are separate objects wired in handleConn)."""
+    rng = ctx.rng
+    runs = []
+    for k in range(2 if ctx.tier == "quick" else 12):
+        fps = rng.choice([2, 3])
+        settings = dict(min=rng.choice([1, 2]), max=rng.choice([20, 30]), preview=1, const=(k % 2 == 0), throttle=False,
+                        motion=dict(FIXED_MOTION, **{"trigger-frames": rng.choice([1, 2])}), device="dev", deviceid=7)
+        w, h = 4, 3
+        fsize = 640 + 2 * w * h
+        trig = settings["motion"]["trigger-frames"]
+        ev = [dict(ev="conn", N=settings["preview"] * fps + trig, TrigF=trig, MinF=settings["min"] * fps, MaxF=settings["max"] * fps,
+                   ConstOn=settings["const"], firstid=1, newrun=True)]
+        payload, pace = bytearray(), []
+        n_idle, n_motion, n_tail = rng.randint(4, 8), rng.randint(34, 44), rng.randint(30, 36)
+        hot, fid = False, 1
+        for i in range(n_idle + n_motion + n_tail):
+            motion = n_idle <= i < n_idle + n_motion
+            if motion:
+                hot = not hot
+            payload += lepton_frame(w, h, fid, 300 if hot else 200, 60000 + fid * 100)
+            pace.append(len(payload))
+            ev.append(dict(ev="frame", id=fid, motion=motion))
+            fid += 1
+        req_at = [n_idle + rng.randint(6, 10)]                       # inside the motion recording
+        if k % 2 == 1:
+            req_at.append(n_idle + n_motion + settings["min"] * fps + 6)   # long after it, while idle (non-overlapping: > 21 frames later)
+        conn = dict(header=dict(ResX=w, ResY=h, FPS=fps, FrameSize=fsize, Model="lepton3", Brand="flir", CameraSerial=2, Firmware="1.0.0"),
+                    payload=base64.b64encode(bytes(payload)).decode(), cuts=[], settle_ms=60, pace_at=pace, pace_ms=5,
+                    dbus=[dict(at_byte=fsize * a, member="TakeTestRecording") for a in req_at])
+        scen = dict(config=toml(settings), prefiles=[], conns=[conn])
+        try:
+            evs = run_e2e(ctx, binp, scen, "c17_%d" % k)
+        except DaemonCrash as dc:
+            runs.append(dict(kind="crash", settings=settings, fps=fps, model="lepton3", msg=dc.msg, result=dict(files=[], constant=[])))
+            continue
+        last = [e for e in evs if e["ev"] == "e2e-conn-done"][-1]
+        runs.append(dict(kind="predict", settings=settings, fps=fps, model="lepton3", model_events=ev, result=last, scen=scen,
+                         ntest=len(req_at), expected_motion={}))
+    return runs
